@@ -3,6 +3,8 @@
 package ast
 
 import (
+	"strings"
+
 	"github.com/xjslang/xjs/token"
 )
 
@@ -429,8 +431,32 @@ func (sl *StringLiteral) WriteTo(cw *CodeWriter) {
 	cw.AddMapping(sl.Token.Start)
 	// TODO: keep the original string token (' or ")
 	cw.WriteRune('"')
-	cw.WriteString(sl.Value)
+	cw.WriteString(escapeDelimiter(sl.Value, '"'))
 	cw.WriteRune('"')
+}
+
+// escapeDelimiter puts a backslash in front of every delimiter character of a literal
+// body that is not escaped yet (a " taken from a single-quoted string, a backtick that
+// the lexer unescaped), leaving existing escape sequences untouched.
+func escapeDelimiter(body string, delimiter byte) string {
+	if strings.IndexByte(body, delimiter) < 0 {
+		return body
+	}
+	var b strings.Builder
+	for i := 0; i < len(body); i++ {
+		c := body[i]
+		if c == '\\' && i+1 < len(body) {
+			b.WriteByte(c)
+			i++
+			b.WriteByte(body[i])
+			continue
+		}
+		if c == delimiter {
+			b.WriteByte('\\')
+		}
+		b.WriteByte(c)
+	}
+	return b.String()
 }
 
 func (sl *StringLiteral) Precedence() int {
@@ -446,7 +472,7 @@ func (sl *MultiStringLiteral) WriteTo(cw *CodeWriter) {
 	cw.WriteLeadingComments(sl.Token.LeadingComments)
 	cw.AddMapping(sl.Token.Start)
 	cw.WriteRune('`')
-	cw.WriteString(sl.Value)
+	cw.WriteString(escapeDelimiter(sl.Value, '`'))
 	cw.WriteRune('`')
 }
 
